@@ -73,7 +73,12 @@ def run(ctx):
     for vi, v in enumerate(versions):
         I = ids_for(v)
         cx = C.ConnectionContext(protocol_version=v)
-        known_ids = {c.get_id(cx) for c in cb.play.get_packets(cx)}
+        all_ids = [c.get_id(cx) for c in cb.play.get_packets(cx)]
+        known_ids = set(all_ids)
+        # on the few snapshot versions with an id collision (known finding of C06) a frame with a shared
+        # id is decoded by whichever class the dict kept: keep such ids out of these histories
+        shared = {i for i in all_ids if all_ids.count(i) > 1}
+        chat_ok = I['chat'] not in shared
         unknown_ids = [i for i in (0x7E, 0x7F, 0x6F, 0xF0, 300, 2 ** 21) if i not in known_ids]
         newer = rank[v] >= rank[107]
         for rep in range(ctx.scale(4, 14)):
@@ -106,10 +111,14 @@ def run(ctx):
                     data = bytes(rng.randrange(256) for _ in range(rng.choice([0, 1, 5, 300])))
                     evs.append('un:%d:%s' % (pid, data.hex() or '-'))
                     script.append(('raw', pid, data))
-                else:
+                elif chat_ok:
                     body = rc.string('{"text":"hi"}') + b'\x01' + (bytes(16) if I['chat_uuid'] else b'')
                     evs.append('ot')
                     script.append(('raw', I['chat'], body))
+                else:
+                    kid = rng.choice(KA_IDS)
+                    evs.append('ka:%d' % kid)
+                    script.append(('raw', I['ka_cb'], rc.be(kid, 8) if I['ka_wide'] else rc.varint(kid)))
             if end != 'none':
                 evs.append('disc')
                 script.append(('raw', I['disc'], rc.string('{"text":"bye"}')))
@@ -119,6 +128,10 @@ def run(ctx):
             cfg = {'version': v, 'script': pre + script}
             if 'uuid_binary' in I:
                 cfg['uuid_binary'] = I['uuid_binary']
+                # login-state ids of snapshots (the 1.13 snapshots 385..390 shift them): pyCraft's own tables
+                cfg['login_ids'] = dict(success=cb.login.LoginSuccessPacket.get_id(cx),
+                                        compress=cb.login.SetCompressionPacket.get_id(cx),
+                                        start=sb.login.LoginStartPacket.get_id(cx))
             calls = []
             with simnet.Net(lambda s: RefServer(s, cfg)) as net:
                 conn = C.Connection('h', 1, username='u', allowed_versions={v},
